@@ -124,6 +124,10 @@ func (g *gateImpl) Clear() {
 	g.err = nil
 	// a cleared gate expects what a new one expects, not the count of the previous generation
 	g.count = g.initialCount
+	if g.arrived == g.count {
+		// only possible for gates constructed with count 0: their condition holds again
+		g.gateCondition.Broadcast()
+	}
 }
 
 // NewGate returns new gate instance.
